@@ -426,13 +426,19 @@ def _total_order_cols(g: G, sch: Sch, avoid=(), strict=False):
     return None
 
 
-def step_ordered_window(g: G, sch: Sch):
+def step_ordered_window(g: G, sch: Sch, prefer=()):
+    """prefer: columns assigned by the directly preceding extend — put one FIRST in order_by with high probability
+    (an order column computed one step earlier is what SQL-level extend merging must not lose track of)."""
     pb = _group_keys(g, sch, lo=0, hi=1)
     ob = _total_order_cols(g, sch, avoid=set(pb), strict=True)
     if ob is None:
         return None
+    pref = [c for c in prefer if c in sch.cols and not sch.cols[c]["null"] and not sch.cols[c]["zn"] and c not in pb and sch.cols[c]["type"] != "bool"]
+    if pref and g.boolean(0.7):
+        lead = g.pick(pref)
+        ob = [lead] + [c for c in ob if c != lead]
     # keys must be wholly inside order_by ∪ partition_by: ordering within a partition is then total
-    rev = g.subset(ob, lo=0, hi=len(ob)) if g.boolean(0.5) else []
+    rev = g.subset(ob, lo=1, hi=len(ob)) if g.boolean(0.5) else []
     forbid = set(pb) | set(ob)
     ops = []
     for _ in range(g.pick([1, 1, 2])):
@@ -580,7 +586,13 @@ def step_order_rows(g: G, sch: Sch, final=False):
         if cols is None:
             return None
         limit = g.pick([None, 0, 1, 2, 3, 5]) if final else g.pick([0, 1, 2, 3, 5, None])
-    rev = g.subset(cols, lo=0, hi=len(cols)) if g.boolean(0.5) else []
+        if final and g.cfg.get("null_order_cols") and g.boolean(0.5):
+            # a NULL-able leading order column (only for checks that compare an engine with itself: where NULLs
+            # sort is engine specific); the order stays total because the key columns follow
+            nullable = [c for c in sch.names() if sch.cols[c]["null"] and not sch.cols[c]["zn"] and c not in cols and sch.cols[c]["type"] != "bool"]
+            if nullable:
+                cols = [g.pick(nullable)] + cols
+    rev = g.subset(cols, lo=1, hi=len(cols)) if g.boolean(0.5) else []
     return {"op": "order_rows", "cols": cols, "reverse": rev, "limit": limit}
 
 
@@ -619,7 +631,7 @@ def step_join(g: G, schemas: Dict[int, Sch], a: int, b: int):
             pref = [c for c in same if c in ("k", "g", "id", "a", "s", "h")]
             pool = pref if pref and g.boolean(0.8) else same
             on = [[c, c] for c in g.subset(pool, lo=1, hi=nk)]
-        if (not on or g.boolean(0.15)) and "diffname_join_keys" not in closed:
+        if (not on or g.boolean(g.cfg.get("diffname_prob", 0.15))) and "diffname_join_keys" not in closed:
             # differently named keys of equal type
             ca = [c for c in sa.names() if keyable(sa, c)]
             cb = [c for c in sb.names() if keyable(sb, c)]
@@ -759,6 +771,12 @@ class Builder:
             nd = step_order_rows(g, schemas[cur])
             if nd is not None:
                 nd["src"] = cur
+        elif kind == "ordered_window":
+            prev = case["nodes"][cur]
+            recent = [k for k, _ in prev["ops"]] if prev["op"] == "extend" and not prev.get("order_by") else []
+            nd = step_ordered_window(g, schemas[cur], prefer=recent)
+            if nd is not None:
+                nd["src"] = cur
         else:
             nd = UNARY_STEPS[kind](g, schemas[cur])
             if nd is not None:
@@ -766,6 +784,40 @@ class Builder:
         if nd is None:
             return None
         return self.add(nd)
+
+    def twin(self, node_id: int):
+        """Add a sibling of `node_id`: same source(s), ONE parameter changed (reverse set, limit, a literal, an
+        operator, a method, jointype...). Two consumers that differ in one parameter only are what a CTE cache key
+        or an equality test must tell apart. Returns the new node id or None."""
+        from .checks import c11  # point mutations of specs live there
+
+        g = self.g
+        nd = self.case["nodes"][node_id]
+        kinds = {
+            "order_rows": ["reverse", "limit", "order_cols_order"],
+            "extend": ["lit_value", "operator", "method", "column_ref", "reverse", "partition_by", "order_by"],
+            "select_rows": ["lit_value", "operator", "column_ref"],
+            "project": ["method", "column_ref", "group_by_order"],
+            "natural_join": ["jointype"],
+        }.get(nd["op"])
+        if not kinds:
+            return None
+        mini = {"tables": self.case["tables"], "nodes": self.case["nodes"][: node_id + 1], "root": node_id, "expr_mode": "text"}
+        for kind in g.draw(st.permutations(kinds)):
+            try:
+                m = c11.mutate(mini, kind, g.pick)
+            except (KeyError, IndexError, S.TypeErr, ValueError):
+                m = None
+            if m is None:
+                continue
+            new_nd = m["nodes"][node_id]
+            if new_nd == nd:
+                continue
+            # the mutation may have hit an earlier node of the mini case: only accept changes of this node
+            if m["nodes"][:node_id] != self.case["nodes"][:node_id]:
+                continue
+            return self.add(new_nd)
+        return None
 
     def grow(self, cur: int, nsteps: int, weights=None, wander=0.15):
         g = self.g
@@ -809,12 +861,24 @@ def draw_program(draw, cfg=None):
     lo_steps = cfg.get("min_steps", 1)
     nsteps = g.pick([n for n in (1, 2, 2, 3, 3, 4, 4, 5, 5, 6, 7, 8) if lo_steps <= n <= max_nodes] or [lo_steps])
     shape = cfg.get("shape")
-    if shape == "diamond" and g.boolean(0.8):
+    if shape == "diamond" and g.boolean(cfg.get("shape_prob", 0.8)):
         # prefix P, two consumers A and B of P, combined by join/concat, then a chain of extends
         row_preserving = {"extend": 5, "window": 2, "ordered_window": 2, "select_rows": 2, "rename_columns": 1}
         p = b.grow(b.heads[0], g.pick([1, 1, 2, 3]), wander=0)
         a = b.grow(p, g.pick([0, 1, 1, 2]), weights={"extend": 5, "select_rows": 3, "window": 2, "ordered_window": 1}, wander=0)
         c = b.grow(p, g.pick([0, 1, 1, 2]), weights={"extend": 5, "select_rows": 3, "window": 2, "project": 1}, wander=0)
+        if cfg.get("narrowing_tails") and g.boolean(0.6):
+            # both consumers ask the shared node for different column subsets
+            na = b.step(a, g.pick(["select_columns", "drop_columns"]))
+            nc = b.step(c, g.pick(["select_columns", "drop_columns"]))
+            a = na if na is not None else a
+            c = nc if nc is not None else c
+        elif g.boolean(0.4):
+            # twin branches: A ends in a step, C is the same step with one parameter changed
+            a2 = b.grow(p, 1, weights={"order_rows": 4, "extend": 3, "ordered_window": 2, "select_rows": 2, "window": 1}, wander=0)
+            t = b.twin(a2) if a2 != p else None
+            if t is not None:
+                a, c = a2, t
         cur = None
         for _ in range(4):
             kind = g.pick(["natural_join", "natural_join", "concat_rows"])
